@@ -401,6 +401,10 @@ fn handler_level(ctx: &Ctx) {
     for run in 0..runs {
         let dir = base.join(format!("r{}", run));
         std::fs::create_dir_all(dir.join("sub")).unwrap();
+        // a second tree with the same relative names, served by a second directory route of the same hosts: the two
+        // routes share the cache and must not share entries
+        let dir_b = base.join(format!("r{}b", run));
+        std::fs::create_dir_all(dir_b.join("sub")).unwrap();
         let names = ["a.txt", "b.html", "sub/c.png", "sub/index.html"];
         let limit = [0usize, 50, 4096][(rng.next() % 3) as usize];
         let tl = [0usize, 60][(rng.next() % 2) as usize];
@@ -410,22 +414,29 @@ fn handler_level(ctx: &Ctx) {
         let mut served: BTreeMap<(usize, String), Vec<Vec<u8>>> = BTreeMap::new();
         let mut fails = Vec::new();
         let mut version = 0u32;
-        for step in 0..30 {
+        for step in 0..40 {
             let r = rng.next();
             let f = names[(r % 4) as usize];
-            if r % 3 == 0 || step < 4 {
+            let second = (r >> 40) % 3 == 0;
+            let key = if second { format!("B:{}", f) } else { f.to_string() };
+            if r % 3 == 0 || step < 6 {
                 version += 1;
                 let len = [(r >> 8) as usize % 40, 60, 5000][((r >> 20) % 3) as usize];
-                let content: Vec<u8> = format!("{}#{}#{}|", f, run, version).into_bytes().into_iter().cycle().take(len.max(12)).collect();
-                std::fs::write(dir.join(f), &content).unwrap();
-                written.entry(f.to_string()).or_default().push(content);
+                let content: Vec<u8> = format!("{}#{}#{}|", key, run, version).into_bytes().into_iter().cycle().take(len.max(14)).collect();
+                std::fs::write(if second { dir_b.join(f) } else { dir.join(f) }, &content).unwrap();
+                written.entry(key.clone()).or_default().push(content);
                 continue;
             }
-            if !written.contains_key(f) {
+            if !written.contains_key(&key) {
                 continue;
             }
             let host = ((r >> 30) % 2) as usize;
-            let (uri, resp) = if (r >> 32) % 2 == 0 {
+            let (uri, resp) = if second {
+                // second directory route "/other/*" over the second tree
+                let uri = if f == "sub/index.html" && (r >> 33) % 2 == 0 { "/other/sub/".to_string() } else { format!("/other/{}", f) };
+                let req = make_request(&uri);
+                (uri.clone(), crate::engine::catch(|| humphrey_server::r#static::directory_handler(req, state.clone(), dir_b.to_str().unwrap(), "/other/*", host)))
+            } else if (r >> 32) % 2 == 0 {
                 // directory route "/static/*"
                 let uri = if f == "sub/index.html" && (r >> 33) % 2 == 0 { "/static/sub/".to_string() } else { format!("/static/{}", f) };
                 let req = make_request(&uri);
@@ -447,10 +458,10 @@ fn handler_level(ctx: &Ctx) {
                 fails.push(fail!("handler-status", "{} answered {} for an existing file", uri, u16::from(resp.status_code)));
                 break;
             }
-            let current = written[f].last().unwrap();
+            let current = written[&key].last().unwrap();
             let earlier = served.get(&(host, uri.clone())).map_or(false, |v| v.contains(&resp.body));
             if &resp.body != current && !earlier {
-                let other_file = written.iter().any(|(n, vs)| n != f && vs.contains(&resp.body));
+                let other_file = written.iter().any(|(n, vs)| *n != key && vs.contains(&resp.body));
                 fails.push(fail!(
                     if other_file { "handler-foreign-content" } else { "handler-unknown-content" },
                     "{} (host {}) returned {} bytes that are neither the file's current content nor content served before for this (host, uri)",
@@ -472,6 +483,7 @@ fn handler_level(ctx: &Ctx) {
             ctx.violation(f, "handler", json!({"note": "handler-level runs are regenerated from the seed; re-run the check", "run": run}));
         }
         let _ = std::fs::remove_dir_all(&dir);
+        let _ = std::fs::remove_dir_all(&dir_b);
     }
     let _ = std::fs::remove_dir_all(&base);
 }
